@@ -17,7 +17,7 @@
 
     All rule theorems are for ALL widths (up to u32::MAX), both signs, ALL operand terms and
     ALL environments - no bound. *)
-From Patronus Require Import Arith ArithLemmas ArithProofs ArithRoundtrip.
+From Patronus Require Import Arith ArithLemmas ArithProofs ArithRoundtrip ArithRoundtripFix.
 Open Scope N_scope.
 
 (** ** the denotation of a node is derived from what [from_arith] builds *)
@@ -180,6 +180,40 @@ Theorem arith_roundtrip_nested_refuted :
 Proof. exact arith_roundtrip_nested_refuted_lemma. Qed.
 Print Assumptions arith_roundtrip_nested_refuted.
 
+(** ** the repaired conversion ([Fix] = patches/0001-fix-to_arith-mixed-extension-chain.diff:
+    [remove_ext] strips a run of ONE kind; an extension visited as a node becomes [ext(x) + 0]) *)
+
+(** [roundtrip_v Cur] is the shipped round trip: the refutation above is about [Cur] *)
+Theorem C19_roundtrip_cur_is_shipped : forall e, roundtrip_v Cur e = roundtrip e.
+Proof. exact roundtrip_cur. Qed.
+Print Assumptions C19_roundtrip_cur_is_shipped.
+
+(** UNRESTRICTED round trip of the repaired code: any well-typed tree of add/sub/mul/shifts over
+    symbols under ANY extensions (mixed chains, extension at the root), stored widths in u32, not a
+    bare symbol: the result exists, is well typed, has the same width and the same value. *)
+Theorem arith_roundtrip_fixed : forall e, wt e = true -> convertible_fix e = true ->
+  exists e', roundtrip_v Fix e = Ok e' /\ wt e' = true /\ type_of e' = type_of e /\
+    forall rho, env_wf rho -> ebv rho e' = ebv rho e.
+Proof. exact arith_roundtrip_fix_lemma. Qed.
+Print Assumptions arith_roundtrip_fixed.
+
+(** in particular on exactly the domain on which the shipped code is refuted
+    ([convertible_shape], no hypothesis on the extension chains) *)
+Theorem arith_roundtrip_fixed_shape : forall e, wt e = true -> convertible_shape e = true ->
+  exists e', roundtrip_v Fix e = Ok e' /\ wt e' = true /\ type_of e' = type_of e /\
+    forall rho, env_wf rho -> ebv rho e' = ebv rho e.
+Proof. exact arith_roundtrip_fix_shape_lemma. Qed.
+Print Assumptions arith_roundtrip_fixed_shape.
+
+(** the witness of [arith_roundtrip_nested_refuted] through the repaired code *)
+Theorem C19_refutation_witness_repaired :
+  roundtrip_v Fix rt_cex
+  = Ok (BVAdd (BVZeroExt (BVAdd (BVSignExt (BVSymbol "x" 2) 2 4) (BVZeroExt (BVLiteral 1 0) 3 4) 4) 3 7)
+              (BVSymbol "y" 7) 7) /\
+  (forall e', roundtrip_v Fix rt_cex = Ok e' -> ebv rt_cex_env e' = ebv rt_cex_env rt_cex).
+Proof. exact rt_cex_fixed_lemma. Qed.
+Print Assumptions C19_refutation_witness_repaired.
+
 (** outside the fragment the implementation has [todo!]/debug assertions: the model panics
     (literal operand; root symbol; root extension) *)
 Theorem C19_to_arith_unsupported_panics :
@@ -231,4 +265,16 @@ Example C19_example_roundtrip_chain :
   let e := BVAdd (BVSignExt (BVSignExt (BVSymbol "x" 2) 2 4) 3 7) (BVSymbol "y" 7) 7 in
   wt e = true /\ convertible e = true /\ convertible_one_ext e = false /\
   roundtrip e = Ok (BVAdd (BVSignExt (BVSymbol "x" 2) 5 7) (BVSymbol "y" 7) 7).
+Proof. vm_compute. repeat split. Qed.
+
+(** the repaired conversion leaves the repository's example unchanged and converts a root extension *)
+Example C19_example_roundtrip_fixed :
+  let a := BVSymbol "A" 16 in let b := BVSymbol "B" 16 in
+  let m := BVSymbol "M" 4 in let n := BVSymbol "N" 4 in
+  let e := BVShiftLeft (BVZeroExt (BVMul (BVZeroExt a 16 32) (BVZeroExt b 16 32) 32) 31 63)
+                       (BVZeroExt (BVAdd (BVZeroExt m 1 5) (BVZeroExt n 1 5) 5) 58 63) 63 in
+  roundtrip_v Fix e = Ok e /\
+  convertible_fix (BVSignExt (BVAdd a b 16) 2 18) = true /\
+  roundtrip_v Fix (BVSignExt (BVAdd a b 16) 2 18)
+    = Ok (BVAdd (BVSignExt (BVAdd a b 16) 2 18) (BVZeroExt (BVLiteral 1 0) 17 18) 18).
 Proof. vm_compute. repeat split. Qed.
